@@ -46,7 +46,9 @@ Theorem c10_impossible_fails : forall (a : assets) (s : session) (r : resume) (t
 Proof. exact impossible_fails. Qed.
 Print Assumptions c10_impossible_fails.
 
-(* what "unusable" is: the flow asset of the waiting run is gone, or it is now a voice flow while the session was
+(* (this theorem unfolds the model's own guard [run_flow_unusable]: it documents what "unusable" is; it is not an
+   independent specification - the independent check of the clause is the direct oracle's class voice-flow-without-call)
+   what "unusable" is: the flow asset of the waiting run is gone, or it is now a voice flow while the session was
    not triggered with a call (in the model: the type of the trigger's flow, kept in s_type, is not voice) *)
 Theorem c10_flow_unusable_iff : forall (a : assets) (s : session) (wi : nat),
   flow_unusable a s wi <->
@@ -107,18 +109,54 @@ Theorem c10_resume_m_state : forall (a : assets) (s : session) (r : resume) (tmo
 Proof. exact resume_m_ok_state. Qed.
 Print Assumptions c10_resume_m_state.
 
-(* prepareForSprint, the only thing Resume does before its checks, modelled explicitly ([resume_mp], model/Engine.v):
-   on an engine error the session and the sprint are as they were, and the only thing that may differ is the
-   transient parentRun flag - which is not in the session's JSON, depends on the unchanged trigger only, and is
-   what prepareForSprint gives again on every later call *)
-Theorem c10_rejected_touches_only_transient : forall (a : assets) (s : session) (loaded : bool) (r : resume) (tmo : text)
+(* prepareForSprint is the only thing Resume does before its checks ([resume_mp], model/Engine.v, threads its
+   transient parentRun flag).  Since goflow f4c75dd NewSession AND ReadSession have already loaded the parent run
+   whenever the trigger carries one, i.e. every session a host can hold has [loaded = trigger_has_run (s_trigger s)];
+   for those a rejected resume changes NOTHING, the transient flag included (hunt2 C10 f2 judged the flip from
+   unloaded to loaded a violation: ParentRun() and @parent.* are visible through the API). *)
+Theorem c10_rejected_changes_nothing : forall (a : assets) (s : session) (loaded : bool) (r : resume) (tmo : text)
     (x' : st) (loaded' : bool) (code : N),
+  loaded = trigger_has_run (s_trigger s) ->
   resume_mp a s loaded r tmo = (x', loaded', OErr code) ->
-  x' = {| session_ := s; sprint_ := empty_sprint |} /\
-  loaded' = (loaded || trigger_has_run (s_trigger s))%bool /\
-  prepare_for_sprint (session_ x') loaded' = loaded' /\ prepare_for_sprint (session_ x') loaded = loaded'.
-Proof. exact resume_mp_rejected. Qed.
-Print Assumptions c10_rejected_touches_only_transient.
+  x' = {| session_ := s; sprint_ := empty_sprint |} /\ loaded' = loaded.
+Proof.
+  intros a s loaded r tmo x' loaded' code Hl H.
+  destruct (resume_mp_rejected _ _ _ _ _ _ _ _ H) as (Hx & Hl' & _). split; [exact Hx|].
+  rewrite Hl', Hl. destruct (trigger_has_run (s_trigger s)); reflexivity.
+Qed.
+Print Assumptions c10_rejected_changes_nothing.
+
+(* without that premise (a session whose parent run was NOT loaded, which the engine before f4c75dd produced by
+   ReadSession) the flag does flip: this is the repaired defect, stated so that it cannot be mistaken for harmless *)
+Theorem c10_unloaded_parent_flips : forall (a : assets) (s : session) (r : resume) (tmo : text) (x' : st) (loaded' : bool) (code : N),
+  trigger_has_run (s_trigger s) = true ->
+  resume_mp a s false r tmo = (x', loaded', OErr code) -> loaded' = true.
+Proof.
+  intros a s r tmo x' loaded' code Ht H. destruct (resume_mp_rejected _ _ _ _ _ _ _ _ H) as (_ & Hl' & _).
+  rewrite Hl', Ht. reflexivity.
+Qed.
+Print Assumptions c10_unloaded_parent_flips.
+
+(* The premise holds for every session a host can hold - made by NewSession, advanced by accepted or rejected resumes,
+   written and read back any number of times: proved on the C02 side over the model of persist/restore
+   (proofs/PersistProofs.v, [reachable] of model/Persist.v; its transient token t_parent IS compared with the real
+   engine after every call, model/PersistCorr.v).  Re-exported here in property terms: a rejected resume of such a
+   session leaves the session, the batch flag and the parent-run flag as they were. *)
+From Verif Require model.Persist proofs.PersistProofs.
+
+Theorem c10_rejected_leaves_held_session : forall (a : assets) (tmo : text) (lv : Persist.live) (r : resume) (code : N),
+  PersistProofs.reachable a tmo lv -> fst (Persist.live_resume a lv r tmo) = Rejected code ->
+  exists lv', Persist.after_call lv (fst (Persist.live_resume a lv r tmo)) (snd (Persist.live_resume a lv r tmo)) = Some lv' /\
+              Persist.lv_core lv' = Persist.lv_core lv /\ Persist.lv_batch_trigger lv' = Persist.lv_batch_trigger lv /\
+              Persist.t_parent (Persist.lv_tr lv') = Persist.t_parent (Persist.lv_tr lv).
+Proof. exact PersistProofs.rejected_resume_leaves_session. Qed.
+Print Assumptions c10_rejected_leaves_held_session.
+
+Theorem c10_held_session_parent_loaded : forall (a : assets) (tmo : text) (lv : Persist.live),
+  PersistProofs.reachable a tmo lv ->
+  Persist.t_parent (Persist.lv_tr lv) = Persist.is_flow_action (s_trigger (Persist.lv_core lv)).
+Proof. exact PersistProofs.reachable_parent_exact. Qed.
+Print Assumptions c10_held_session_parent_loaded.
 
 (* the fifth way a resume can end failed - "unable to resolve router exit" after resume.Apply (FRouteError), the one
    that comes with extra events - cannot happen on validated definitions: findResumeExit does not fail *)
